@@ -38,6 +38,7 @@ func init() {
 }
 
 func checkC06(c *Ctx) {
+	newCacheModel(c).checkDoList() // the parent listing a (re)sync works from is a private snapshot
 	checkFilterEquality(c) // an equal-looking filter is skipped: equality must be sound
 	checkNotRunningErrors(c)
 	checkRequestChannelPairing(c) // Refilter goes through the loop, in call order
@@ -110,6 +111,8 @@ func init() {
 }
 
 func checkC13(c *Ctx) {
+	checkListHelpers(c) // a list call is bounded only by shutdown (no per-call deadline that turns a slow list into a fatal error)
+	checkNoSleep(c)
 	checkCtorChannelCapacities(c)
 	checkRequestChannelPairing(c) // Reset() must reach the reset arm, Stop() the stop arm
 	checkSessionFlows(c)          // a hung watch connect must not wedge the relist cycle (stop() cancels before it waits)
@@ -129,6 +132,7 @@ func init() {
 }
 
 func checkC16(c *Ctx) {
+	checkSubscriptionTable(c) // callbacks in publication order: the subscription hand-off under the monitor forwards in order or drops, never reorders
 	for _, r := range typedRelsQuick(c) {
 		checkTypedRobustness(c, r)
 		checkHandlerBuilderCopy(c, r)
@@ -170,6 +174,7 @@ func init() {
 }
 
 func checkC05(c *Ctx) {
+	checkCloneFresh(c)
 	checkCtorChannelCapacities(c)
 	checkRootForwarders(c)
 	if c.Tier == "thorough" {
@@ -214,6 +219,8 @@ func init() {
 var rootRels = []string{"", "join", "client"}
 
 func checkC12(c *Ctx) {
+	checkPublisherFanout(c) // the drain counts one unsubscribe per registered subscription: nothing but the unsubscribe arm may remove one
+	checkNoSleep(c)
 	checkCtorChannelCapacities(c)
 	checkRootForwarders(c)
 	runs := findRunFuncs(c.P, rootRels)
@@ -249,6 +256,7 @@ func checkC12(c *Ctx) {
 }
 
 func checkC11(c *Ctx) {
+	checkCloneFresh(c) // closing one clone never closes a sibling: every Clone* call builds its own controller
 	checkRootForwarders(c)
 	checkStopWiring(c)
 	checkCloseForwarding(c, append([]string{"", "join"}, typedRelsQuick(c)...))
@@ -320,6 +328,7 @@ func init() {
 }
 
 func checkC19(c *Ctx) {
+	checkGeneratedJoinShape(c) // the joins apply the selection filter of the source package itself (not a cached or wrapped one)
 	checkAppendBases(c, []string{"types/deployment", "types/daemonset", "types/replicaset", "types/replicationcontroller", "types/statefulset", "types/job", "types/service", "types/ingress"})
 	checkPodsFilters(c, false)
 	checkIngressFilter(c)
@@ -337,6 +346,9 @@ func init() {
 }
 
 func checkC09(c *Ctx) {
+	checkCtorChannelCapacities(c) // refilter requests are handed over one by one (rendezvous), never coalesced or dropped
+	checkNotRunningErrors(c)
+	checkRequestChannelPairing(c)
 	checkGeneratedJoinShape(c)
 	checkJoinRelease(c)
 	checkJoinNoCloseOfParams(c)
@@ -400,6 +412,7 @@ func init() {
 }
 
 func checkC02(c *Ctx) {
+	checkMonitorTable(c) // "a mirroring consumer never diverges": a monitor hands every event it receives to its handler, one callback per event
 	checkAppendBases(c, []string{""}) // the event lists start empty
 	m := newCacheModel(c)
 	m.checkDoUpdate()
@@ -418,6 +431,7 @@ func checkC02(c *Ctx) {
 }
 
 func checkC07(c *Ctx) {
+	newCacheModel(c).checkDoList() // the parent listing a refilter works from is a private snapshot
 	checkNotRunningErrors(c)
 	checkRequestChannelPairing(c)
 	checkFilterSubscriptionTable(c)
